@@ -48,6 +48,7 @@ func paramsSx(ps rux.Params) Sx {
 }
 
 type rtRouter struct {
+	decoy  *rux.Router
 	r      *rux.Router
 	regs   []Sx
 	byName map[string]int
@@ -91,6 +92,12 @@ func rtBuild(c Sx, caching bool) *rtRouter {
 		}
 	}
 	rr := &rtRouter{r: rux.New(opts...), byName: map[string]int{}}
+	if caching {
+		// a second router configured with the very same option values (one option list used for two routers): it has
+		// its own routes, and its lookups must not influence this router
+		rr.decoy = rux.New(opts...)
+		rr.decoy.Any("/{decoyall:.*}", func(c *rux.Context) { c.SetStatus(299) })
+	}
 	if customNF {
 		rr.r.NotFound(func(c *rux.Context) { rtCur.who = "nf"; c.SetStatus(404) })
 	}
@@ -157,6 +164,12 @@ func rtBuild(c Sx, caching bool) *rtRouter {
 }
 
 func (rr *rtRouter) match(m, p string) (res Sx) {
+	if rr.decoy != nil {
+		func() {
+			defer func() { _ = recover() }()
+			rr.decoy.Match(m, p)
+		}()
+	}
 	defer func() {
 		if e := recover(); e != nil {
 			res = L(A("panic"))
